@@ -9,7 +9,14 @@ Correspondence (implementation = current /repo tree, model = `Eval vm_compute` i
   nested      nested with statements (depth 2..5, nested statements and `with a, b:`), exhaustive at depth 2 on
               representative classes, random deeper
   repeated    several statements after one another on one decorated function
-  decoration  the four kinds of `def` in several syntactic forms x both decorators
+  decoration  the four kinds of `def` in several syntactic forms x both decorators x the state of the global switch
+  switch      one with statement, decorated (and, independently, used) under every state of the global switch:
+              ENABLE_PEDANTIC unset / "0" / "1", disable_pedantic() / enable_pedantic() called - the property text makes
+              no exception for the switch
+  interpreter the decoration scenarios and a sample of the with statements once more in child interpreters started with
+              -O, -OO, PYTHONOPTIMIZE=1/2 (assert statements stripped) and with ENABLE_PEDANTIC=0/1 already in the
+              environment of the interpreter
+  (the random nested / repeated cases draw a switch state as well)
   shape       functools.wraps metadata, kind of the wrapper, what the decorator returns
   generator   real (async) generators described by behaviour trees x next/send/throw/close sequences
               against Model/Generator.v
@@ -40,6 +47,42 @@ NAMES = {(0,): 'Exception', (0, 1): 'ValueError', (0, 20): 'UserError(Exception)
          (0, 6, 0): 'RecursionError'}
 EARLY = ['return', 'break', 'continue']
 STYLES = ['nested', 'multi']
+# the circumstances of a decoration (harness/w_ctx.py): state of the global switch, set in the process ...
+SWITCHES = ['unset', '0', '1', 'disabled', 'enabled']
+# ... and the interpreter: [optimize level, given by flag or by PYTHONOPTIMIZE, ENABLE_PEDANTIC in its environment]
+INTERPS = [[1, 'flag', None], [2, 'flag', None], [1, 'env', None], [2, 'env', None], [0, 'flag', '0'], [0, 'flag', '1'],
+           [2, 'flag', '0']]
+
+
+def enabled_of(c):
+    """is_enabled() at decoration time: ENABLE_PEDANTIC unset or "1" """
+    sw = c.get('switch', 'inherit')
+    if sw == 'inherit':
+        sw = (c.get('interp') or [0, 'flag', None])[2]
+        sw = 'unset' if sw is None else sw
+    return sw in ('unset', '1', 'enabled')
+
+
+def optimize_of(c):
+    return (c.get('interp') or [0, 'flag', None])[0] > 0
+
+
+def circumstances(c):
+    """in words, for the report; '' for the defaults"""
+    out = []
+    sw = c.get('switch', 'inherit')
+    if sw not in ('inherit', 'unset'):
+        out.append({'disabled': 'decorated after disable_pedantic()', 'enabled': 'decorated after enable_pedantic()'}.get(sw)
+                   or f'decorated while ENABLE_PEDANTIC={sw}')
+    if c.get('kind') == 'seq' and c.get('switch_use', sw) != sw:
+        out.append(f'used while the switch is {c["switch_use"]}')
+    it = c.get('interp')
+    if it:
+        if it[0]:
+            out.append('interpreter started with ' + ('-' + 'O' * it[0] if it[1] == 'flag' else f'PYTHONOPTIMIZE={it[0]}'))
+        if it[2] is not None:
+            out.append(f'interpreter started with ENABLE_PEDANTIC={it[2]}')
+    return ', '.join(out)
 
 
 def cname(p):
@@ -96,9 +139,9 @@ def coq_term(c):
     k = c['kind']
     if k == 'seq':
         items = coq_list([f'({coq_list([c_use(u) for u in it["uses"]])}, {c_body(it["body"])})' for it in c['items']])
-        return f'eval_case {c_var(c["var"])} {items}'
+        return f'eval_case {c_var(c["var"])} {coq_bool(enabled_of(c))} {coq_bool(optimize_of(c))} {items}'
     if k == 'deco':
-        return f'eval_deco {c_var(c["var"])} {FKIND[seen_kind(c)]}'
+        return f'eval_deco {c_var(c["var"])} {FKIND[seen_kind(c)]} {coq_bool(enabled_of(c))} {coq_bool(optimize_of(c))}'
     if k == 'shape':
         return f'eval_shape {c_var(c["var"])}'
     if k == 'gen':
@@ -220,9 +263,19 @@ def mk_use(rng, ids, setup, cleanup):
     return {'id': ids.next(), 'args': rng.randrange(14), 'setup': setup, 'val': rng.randrange(13), 'cleanup': cleanup}
 
 
-def mk_seq(rng, var, items, stream):
-    return {'kind': 'seq', 'stream': stream, 'var': var, 'items': items, 'style': rng.choice(STYLES),
-            'shared': rng.random() < 0.5, 'suspend': rng.random() < 0.5, 'early': rng.choice(EARLY)}
+def mk_seq(rng, var, items, stream, switch='unset', switch_use=None, interp=None):
+    c = {'kind': 'seq', 'stream': stream, 'var': var, 'items': items, 'style': rng.choice(STYLES),
+         'shared': rng.random() < 0.5, 'suspend': rng.random() < 0.5, 'early': rng.choice(EARLY),
+         'switch': switch, 'switch_use': switch if switch_use is None else switch_use}
+    if interp:
+        c['interp'] = interp
+    return c
+
+
+def rand_switch(rng):
+    """(at decoration, at use): mostly the default, mostly the same"""
+    sw = 'unset' if rng.random() < 0.6 else rng.choice(SWITCHES[1:])
+    return sw, (sw if rng.random() < 0.7 else rng.choice(SWITCHES))
 
 
 def gen_product(rng, tier, scale):
@@ -280,7 +333,7 @@ def gen_nested(rng, tier, scale):
         ids = Ids()
         depth = rng.choice([2, 2, 2, 3, 3, 4, 5])
         uses = [rand_use(rng, ids) for _ in range(depth)]
-        cases.append(mk_seq(rng, rng.choice(['sync', 'async']), [{'uses': uses, 'body': rand_body(rng)}], 'nested'))
+        cases.append(mk_seq(rng, rng.choice(['sync', 'async']), [{'uses': uses, 'body': rand_body(rng)}], 'nested', *rand_switch(rng)))
     return cases
 
 
@@ -293,21 +346,67 @@ def gen_repeated(rng, tier, scale):
         for _ in range(rng.choice([2, 2, 3, 3, 4, 5, 8])):
             depth = rng.choice([0, 1, 1, 1, 2, 2, 3])
             items.append({'uses': [rand_use(rng, ids, 0.2) for _ in range(depth)], 'body': rand_body(rng)})
-        c = mk_seq(rng, rng.choice(['sync', 'async']), items, 'repeated')
+        c = mk_seq(rng, rng.choice(['sync', 'async']), items, 'repeated', *rand_switch(rng))
         c['shared'] = rng.random() < 0.8
         cases.append(c)
     return cases
 
 
-def gen_deco():
+def gen_deco(stream='decoration', switches=SWITCHES, interp=None):
     cases = []
+    for sw in switches:
+        for var in ('sync', 'async'):
+            for fk in FKIND:
+                for form in ('def', 'method', 'partial', 'wrapped', 'callable_object'):
+                    cases.append({'kind': 'deco', 'stream': stream, 'var': var, 'fkind': fk, 'form': form, 'switch': sw})
+            for fk in ('plain', 'generator'):
+                cases.append({'kind': 'deco', 'stream': stream, 'var': var, 'fkind': fk, 'form': 'lambda', 'switch': sw})
+            cases.append({'kind': 'shape', 'stream': 'shape' if stream == 'decoration' else stream, 'var': var, 'switch': sw})
+    if interp:
+        for c in cases:
+            c['interp'] = interp
+    return cases
+
+
+def gen_switch(rng, tier, scale):
+    """one with statement around a generator function decorated under every state of the global switch other than the
+    default one (the `with` stream): every body outcome class x three cleanup outcomes; the state during the with
+    statement is the same or another one.  Then: decorated in the default state, used under every other one."""
+    cases = []
+    bodies = [['normal'], ['early']] + [['raise', p] for p in FULL]
+    cleanups = [['ok'], ['raise', [0, 1]], ['raise', SI]]
     for var in ('sync', 'async'):
-        for fk in FKIND:
-            for form in ('def', 'method', 'partial', 'wrapped', 'callable_object'):
-                cases.append({'kind': 'deco', 'stream': 'decoration', 'var': var, 'fkind': fk, 'form': form})
-        for fk in ('plain', 'generator'):
-            cases.append({'kind': 'deco', 'stream': 'decoration', 'var': var, 'fkind': fk, 'form': 'lambda'})
-        cases.append({'kind': 'shape', 'stream': 'shape', 'var': var})
+        for sw in SWITCHES[1:]:
+            for b in bodies:
+                for cl in cleanups:
+                    use = sw if rng.random() < 0.5 else rng.choice(SWITCHES)
+                    cases.append(mk_seq(rng, var, [{'uses': [mk_use(rng, Ids(), ['ok'], cl)], 'body': b}], 'switch', sw, use))
+            for st in (['raise', [0, 20]], ['raise', [1]], ['raise', SI], ['return']):
+                cases.append(mk_seq(rng, var, [{'uses': [mk_use(rng, Ids(), st, ['ok'])], 'body': ['normal']}], 'switch', sw))
+            for b in (['normal'], ['early'], ['raise', [0, 1]], ['raise', [1]], ['raise', GE], ['raise', SI]):
+                cases.append(mk_seq(rng, var, [{'uses': [mk_use(rng, Ids(), ['ok'], ['ok'])], 'body': b}], 'switch', 'unset', sw))
+    return cases
+
+
+def gen_interp(rng, tier, scale):
+    """the decoration scenarios, and a sample of the with statements, in child interpreters: assert statements stripped
+    (-O, -OO, PYTHONOPTIMIZE) and/or the switch already in the environment the interpreter starts with"""
+    cases = []
+    bodies = [['normal'], ['early']] + [['raise', p] for p in REPS]
+    for it in INTERPS:
+        cases += gen_deco('interpreter', ['inherit'] if it[2] is not None else ['inherit', '0'], it)
+        for var in ('sync', 'async'):
+            for b in bodies:
+                for cl in (['ok'], ['raise', [0, 1]]):
+                    cases.append(mk_seq(rng, var, [{'uses': [mk_use(rng, Ids(), ['ok'], cl)], 'body': b}], 'interpreter',
+                                        'inherit', None, it))
+        for _ in range((8 if tier == 'quick' else 60) * scale):
+            ids = Ids()
+            items = [{'uses': [rand_use(rng, ids) for _ in range(rng.choice([1, 2, 2, 3]))], 'body': rand_body(rng)}
+                     for _ in range(rng.choice([1, 1, 2, 3]))]
+            sw = 'inherit' if rng.random() < 0.6 else rng.choice(SWITCHES)
+            cases.append(mk_seq(rng, rng.choice(['sync', 'async']), items, 'interpreter', sw,
+                                sw if rng.random() < 0.7 else rng.choice(SWITCHES), it))
     return cases
 
 
@@ -391,6 +490,7 @@ def gen_plain(rng, tier, scale):
 
 def gen_cases(rng, tier, scale):
     return (gen_product(rng, tier, scale) + gen_nested(rng, tier, scale) + gen_repeated(rng, tier, scale) + gen_deco()
+            + gen_switch(rng, tier, scale) + gen_interp(rng, tier, scale)
             + gen_protocol(rng, tier, scale) + gen_plain(rng, tier, scale))
 
 
@@ -399,10 +499,16 @@ def size_of(c):
         uses = [u for it in c['items'] for u in it['uses']]
         paths = [len(x[1]) for it in c['items'] for x in [it['body']] + [u['setup'] for u in it['uses']] + [u['cleanup'] for u in it['uses']]
                  if x[0] == 'raise']
-        return (0, len(c['items']), len(uses), len(paths), sum(paths), c['var'] == 'async', bool(c.get('suspend')))
+        return (0, len(c['items']), len(uses), len(paths), sum(paths), c['var'] == 'async', bool(c.get('suspend')), odd_of(c))
     if c['kind'] in ('deco', 'shape'):
-        return (0, 0, 0, 0, 0, c['var'] == 'async', False)
-    return (1, len(json.dumps(c['beh'])), len(c.get('ops', [])), 0, 0, c['var'] == 'async', False)
+        return (0, 0, 0, 0, 0, c['var'] == 'async', False, odd_of(c))
+    return (1, len(json.dumps(c['beh'])), len(c.get('ops', [])), 0, 0, c['var'] == 'async', False, 0)
+
+
+def odd_of(c):
+    """how far the circumstances are from the defaults (a child interpreter counts more than a switch state)"""
+    sw = c.get('switch', 'inherit')
+    return (4 * bool(c.get('interp')) + 2 * (sw not in ('inherit', 'unset')) + (c.get('switch_use', sw) != sw))
 
 
 # ---- judging ------------------------------------------------------------------------------------------------
@@ -413,13 +519,18 @@ def judge(c, impl, model):
         return False, True, f'implementation worker failed: {impl}', {}
     k = c['kind']
     if k == 'seq':
+        if impl['flat'][:1] == [-4]:
+            # the decoration itself raised: the statement demands that a generator function of the right kind is accepted
+            corr = model is not None and -1 in model and model[:model.index(-1)] == impl['flat']
+            return corr, False, f'decorating a {"generator" if c["var"] == "sync" else "async generator"} function with the ' \
+                                f'{c["var"]} decorator raised {impl.get("exc")}', {}
         i_ev, i_leaves, i_classes = parse_impl_seq(impl['flat'])
         s_ev, s_leaves = py_spec(c)
         corr, note = True, ''
         if model is None:
             corr, note = False, 'model evaluation failed'
         elif model == [-2]:
-            corr, note = False, 'the regenerated decorator is not contextmanager(def wrapper) / asynccontextmanager(async def wrapper): no model of its with statement'
+            corr, note = False, 'the regenerated decorator returns neither contextmanager(def wrapper) / asynccontextmanager(async def wrapper) nor the plain helper around f: no model of its with statement'
         else:
             sep = model.index(-1)
             if model[:sep] != impl['flat']:
@@ -433,8 +544,9 @@ def judge(c, impl, model):
         return corr, True, note, info
     if k == 'deco':
         demanded_accept = (c['var'], seen_kind(c)) in (('sync', 'generator'), ('async', 'asyncgen'))
-        accepted = impl['deco'] == [0]
-        info = {'exc': impl.get('exc')}
+        accepted = impl['deco'][:1] in ([0], [2])        # [2, what]: accepted, but what came back has no wrapper
+        info = {'exc': impl.get('exc'), 'class': f'a function the {c["var"]} decorator must {"accept" if demanded_accept else "reject"} was '
+                                                  f'{"accepted" if accepted else "rejected"}'}
         if accepted != demanded_accept:
             return True, False, (f'{c["fkind"]} function ({c["form"]}) was accepted by the {c["var"]} decorator' if accepted else
                                  f'{c["fkind"]} function ({c["form"]}) was rejected by the {c["var"]} decorator ({impl.get("exc")})'), info
@@ -464,7 +576,14 @@ def run(tier, seed, replay=None):
     ck.prepare()
 
     def evaluate(cases):
-        impl = ck.run_impl('w_ctx', cases, timeout=900)
+        # cases for child interpreters go to two workers of their own (each starts one child per kind of interpreter)
+        here = [k for k, c in enumerate(cases) if not c.get('interp')]
+        there = [k for k, c in enumerate(cases) if c.get('interp')]
+        impl = [None] * len(cases)
+        for k, r in zip(here, ck.run_impl('w_ctx', [cases[k] for k in here], timeout=900)):
+            impl[k] = r
+        for k, r in zip(there, ck.run_impl('w_ctx', [cases[k] for k in there], timeout=900, shards=min(2, max(1, len(there))))):
+            impl[k] = r
         model = ck.coq_eval(PRE, [coq_term(c) for c in cases], chunk=250) if ck.model_ok else [None] * len(cases)
         return impl, model
 
@@ -477,7 +596,8 @@ def run(tier, seed, replay=None):
     impl, model = evaluate(cases)
     hist = {'setup': {}, 'body': {}, 'cleanup': {}, 'variant': {}, 'depth': {}, 'statements': {}, 'style': {}, 'early': {},
             'leaves': {}, 'decoration': {}, 'stream': {}, 'classes_body': {}, 'classes_cleanup': {}, 'classes_setup': {},
-            'suspending_async': 0, 'shared_decorated_function': 0, 'out_of_domain_generators': 0}
+            'suspending_async': 0, 'shared_decorated_function': 0, 'out_of_domain_generators': 0,
+            'switch_at_decoration': {}, 'switch_at_use_differs': 0, 'interpreter': {}}
 
     def bump(d, k):
         d[k] = d.get(k, 0) + 1
@@ -487,7 +607,14 @@ def run(tier, seed, replay=None):
         bump(hist['stream'], stream)
         bump(hist['variant'], c['var'])
         nontrivial = True
+        if c['kind'] in ('seq', 'deco', 'shape'):
+            bump(hist['switch_at_decoration'], c.get('switch', 'inherit'))
+            it = c.get('interp')
+            bump(hist['interpreter'], 'the worker itself' if not it else
+                 ('-' + 'O' * it[0] if it[0] and it[1] == 'flag' else f'PYTHONOPTIMIZE={it[0]}' if it[0] else 'no -O')
+                 + (f', ENABLE_PEDANTIC={it[2]} in its environment' if it[2] is not None else ''))
         if c['kind'] == 'seq':
+            hist['switch_at_use_differs'] += int(c.get('switch_use', c.get('switch')) != c.get('switch'))
             bump(hist['statements'], len(c['items']))
             bump(hist['style'], c.get('style', 'nested'))
             hist['suspending_async'] += int(bool(c.get('suspend')) and c['var'] == 'async')
@@ -510,21 +637,26 @@ def run(tier, seed, replay=None):
             nontrivial = any(u['setup'][0] == 'ok' for it in c['items'] for u in it['uses'])
         key = json.dumps({k: v for k, v in c.items() if k != 'stream'}, sort_keys=True)
         ck.note_case(key, nontrivial=nontrivial)
-        corr, prop, what, info = judge(c, i, m)
+        try:
+            corr, prop, what, info = judge(c, i, m)
+        except Exception as ex:       # a judge never raises: an output it cannot read is a broken correspondence
+            corr, prop, what, info = False, True, f'outputs could not be judged: {ex!r}', {}
         for l in info.get('leaves', []):
             bump(hist['leaves'], LEAVES.get(l, str(l)))
         if c['kind'] == 'deco':
-            bump(hist['decoration'], f'{c["var"]}/{c["fkind"]}/{c["form"]}: ' + ('accepted' if i and i.get('deco') == [0] else f'rejected ({info.get("exc")})'))
+            bump(hist['decoration'], f'{c["var"]}/{c["fkind"]}/{c["form"]}: ' + ('accepted' if i and (i.get('deco') or [1])[0] in (0, 2) else f'rejected ({info.get("exc")})'))
         if corr and prop:
             ck.traces_validated += 1
         if not prop:
-            ck.violation(what, {k: v for k, v in c.items()}, stream=stream, extra={'impl': i, 'model': m, 'class': what.split(';')[0][:70]},
+            circ = circumstances(c)
+            ck.violation((circ + ': ' if circ else '') + what, {k: v for k, v in c.items()}, stream=stream,
+                         extra={'impl': i, 'model': m, 'class': info.get('class') or what.split(';')[0][:70], 'circumstances': circ or 'defaults'},
                          matcher=matcher)
         elif not corr:
             disagreements.setdefault(stream, []).append({'case': c, 'impl': i, 'model': m, 'what': what})
     # smallest failing input first: fewest statements, fewest generators, shortest class paths, sync before async
     ck.violations.sort(key=lambda v: size_of(v['case']))
-    for stream in ('with', 'nested', 'repeated', 'decoration', 'shape', 'generator', 'contextlib'):
+    for stream in ('with', 'nested', 'repeated', 'decoration', 'shape', 'switch', 'interpreter', 'generator', 'contextlib'):
         ds = sorted(disagreements.get(stream, []), key=lambda d: size_of(d['case']))
         n_stream = hist['stream'].get(stream, 0)
         if n_stream or ds:
@@ -542,11 +674,18 @@ def run(tier, seed, replay=None):
         'PEP 479: a StopIteration (async: also StopAsyncIteration) raised inside the user\'s generator reaches any caller as a RuntimeError chained to it; '
         'the property\'s "propagates" is read modulo this conversion, which Python applies before the decorator sees the exception',
         'CPython 3.12 generator protocol and contextlib are modelled (Model/Generator.v, Model/Contextlib.v) and validated by the generator and contextlib streams only',
+        'the property is read without an exception for the global switch or the interpreter mode: the demanded journal and result are the same under every '
+        'state of ENABLE_PEDANTIC (at decoration, during use) and under -O / -OO.  In the model the switch enters as the value of is_enabled() '
+        '(true for unset / "1"), -O as "assert statements do nothing"; the state of the switch during use and the way the interpreter got its mode '
+        '(flag, PYTHONOPTIMIZE, environment of the process) exist on the implementation side only and are judged by the specification directly',
     ]
     return ck.finish(
         rule='with: full product {setup ok} x body {normal, return, break, continue, raise each of 19 classes} x cleanup {ok, second yield, raise each of 19 classes} '
              'x {sync, async} plus setup {no yield, raise each of 19 classes} x bodies x cleanups; nested: depth-2 product over 7 representative classes plus random depth 2..5; '
-             'repeated: 2..8 statements on one decorated function; decoration: 4 kinds of def x 6 forms x 2 decorators; generator/contextlib: random behaviour trees; '
+             'repeated: 2..8 statements on one decorated function; decoration: 4 kinds of def x 6 forms x 2 decorators x 5 switch states; '
+             'switch: {4 non-default switch states at decoration} x body {normal, early, raise each of 19 classes} x cleanup {ok, ValueError, StopIteration} x {sync, async}, '
+             'failing setups, and default-at-decoration x 4 states during use; interpreter: 7 kinds of child interpreter (-O, -OO, PYTHONOPTIMIZE=1/2, ENABLE_PEDANTIC=0/1 in '
+             'the environment, -OO with ENABLE_PEDANTIC=0) x (all decoration cases + 36 with statements + random nested/repeated); generator/contextlib: random behaviour trees; '
              'distinct = the whole case; non-trivial = at least one generator whose setup succeeds (body runs inside a with statement)',
         checker_cmd='make -C coq Props/C16.vo && coqc -Q coq PV coq/Props/C16.v (Print Assumptions under every theorem)',
         trusted_base=['Coq 8.16.1 kernel (coqc; vm_compute used for model/spec evaluation)',
